@@ -36,6 +36,13 @@ func TestMain(m *testing.M) {
 		os.Symlink(filepath.Join(dir, "outside", "secret.txt"), filepath.Join(base, "link.txt"))
 		os.Symlink(base, filepath.Join(dir, "baselink"))
 		realBases = []string{base, base + "/", filepath.Join(dir, "baselink"), filepath.Join(base, "dir"), filepath.Join(base, "pub")}
+		// bases that name something that exists and is not a directory (a regular file, a link to one, a device, this
+		// test binary): "for all non-empty bases" - the result stays at or beneath the string that was given, it is
+		// not for the function to decide that the caller must have meant the directory next to it (round twenty-two)
+		realBases = append(realBases, filepath.Join(base, "file.txt"), filepath.Join(base, "link.txt"), filepath.Join(base, "dir", "inner.txt"), filepath.Join(base, "file.txt")+"/", "/dev/null")
+		if exe, err := os.Executable(); err == nil {
+			realBases = append(realBases, exe)
+		}
 	}
 	code := m.Run()
 	if dir != "" {
@@ -45,7 +52,7 @@ func TestMain(m *testing.M) {
 	os.Exit(code)
 }
 
-var realBases []string // existing directories (see TestMain)
+var realBases []string // names that exist on disk: directories, and (since round twenty-two) things that are not (see TestMain)
 
 var realSegs = []string{"file.txt", "dir", "inner.txt", "pub", "secret.txt", "self", "link.txt"}
 
